@@ -351,7 +351,7 @@ def strategy(tier):
 
 def budget(tier):
     if tier == 'quick':
-        return {'max_examples': 560, 'shards': 8, 'time_budget': 100}
+        return {'max_examples': 1120, 'shards': 16, 'time_budget': 100}
     return {'max_examples': 56000, 'shards': 16, 'time_budget': 1500}
 
 
